@@ -694,6 +694,160 @@ theorem caseDelivers_runN : ∀ {n : Int} {body : List Tok} {p : List Plain}, Ca
 end
 
 
+/-! ## The tree specification is an instance of the relational one -/
+
+theorem rawDepth_plain (k : Nat) (p : Plain) (l : List Tok) : rawDepth k (p.tok :: l) = rawDepth k l := by
+  cases p <;> cases k <;> simp [Plain.tok, rawDepth]
+
+theorem rawDepthAny_plain (k : Nat) (p : Plain) (l : List Tok) : rawDepthAny k (p.tok :: l) = rawDepthAny k l := by
+  cases p <;> cases k <;> simp [Plain.tok, rawDepthAny]
+
+mutual
+theorem rawDepth_text : ∀ (t : Text) (k : Nat) (rest : List Tok),
+    rawDepth k (t.flatten ++ rest) = rawDepth k rest
+  | .nil, k, rest => by simp [Text.flatten]
+  | .plain p r, k, rest => by
+    simp only [Text.flatten, List.cons_append, rawDepth_plain]; exact rawDepth_text r k rest
+  | .ifThen c a r, k, rest => by
+    simp only [Text.flatten, List.cons_append, List.append_assoc, rawDepth]
+    rw [rawDepth_text a]; simp only [rawDepth]; exact rawDepth_text r k rest
+  | .ifElse c a b r, k, rest => by
+    simp only [Text.flatten, List.cons_append, List.append_assoc, rawDepth]
+    rw [rawDepth_text a]; simp only [rawDepth]
+    rw [rawDepth_text b]; simp only [rawDepth]; exact rawDepth_text r k rest
+  | .caseOf n cs r, k, rest => by
+    simp only [Text.flatten, List.cons_append, List.append_assoc, rawDepth]
+    rw [rawDepth_cases cs]; exact rawDepth_text r k rest
+theorem rawDepth_cases : ∀ (cs : Cases) (k : Nat) (rest : List Tok),
+    rawDepth (k + 1) (cs.flatten ++ rest) = rawDepth k rest
+  | .last b, k, rest => by
+    simp only [Cases.flatten, List.append_assoc, List.cons_append, List.nil_append]
+    rw [rawDepth_text b]; simp only [rawDepth]
+  | .lastElse b e, k, rest => by
+    simp only [Cases.flatten, List.append_assoc, List.cons_append, List.nil_append]
+    rw [rawDepth_text b]; simp only [rawDepth]
+    rw [rawDepth_text e]; simp only [rawDepth]
+  | .more b cs, k, rest => by
+    simp only [Cases.flatten, List.append_assoc, List.cons_append]
+    rw [rawDepth_text b]; simp only [rawDepth]; exact rawDepth_cases cs k rest
+end
+
+mutual
+theorem rawDepthAny_text : ∀ (t : Text) (k : Nat) (rest : List Tok),
+    rawDepthAny k (t.flatten ++ rest) = rawDepthAny k rest
+  | .nil, k, rest => by simp [Text.flatten]
+  | .plain p r, k, rest => by
+    simp only [Text.flatten, List.cons_append, rawDepthAny_plain]; exact rawDepthAny_text r k rest
+  | .ifThen c a r, k, rest => by
+    simp only [Text.flatten, List.cons_append, List.append_assoc, rawDepthAny]
+    rw [rawDepthAny_text a]; simp only [rawDepthAny]; exact rawDepthAny_text r k rest
+  | .ifElse c a b r, k, rest => by
+    simp only [Text.flatten, List.cons_append, List.append_assoc, rawDepthAny]
+    rw [rawDepthAny_text a]; simp only [rawDepthAny]
+    rw [rawDepthAny_text b]; simp only [rawDepthAny]; exact rawDepthAny_text r k rest
+  | .caseOf n cs r, k, rest => by
+    simp only [Text.flatten, List.cons_append, List.append_assoc, rawDepthAny]
+    rw [rawDepthAny_cases cs]; exact rawDepthAny_text r k rest
+theorem rawDepthAny_cases : ∀ (cs : Cases) (k : Nat) (rest : List Tok),
+    rawDepthAny (k + 1) (cs.flatten ++ rest) = rawDepthAny k rest
+  | .last b, k, rest => by
+    simp only [Cases.flatten, List.append_assoc, List.cons_append, List.nil_append]
+    rw [rawDepthAny_text b]; simp only [rawDepthAny]
+  | .lastElse b e, k, rest => by
+    simp only [Cases.flatten, List.append_assoc, List.cons_append, List.nil_append]
+    rw [rawDepthAny_text b]; simp only [rawDepthAny]
+    rw [rawDepthAny_text e]; simp only [rawDepthAny]
+  | .more b cs, k, rest => by
+    simp only [Cases.flatten, List.append_assoc, List.cons_append]
+    rw [rawDepthAny_text b]; simp only [rawDepthAny]; exact rawDepthAny_cases cs k rest
+end
+
+/-- An `\ifcase` body without its closing `\fi`. -/
+def Cases.body : Cases → List Tok
+  | .last b => b.flatten
+  | .lastElse b e => b.flatten ++ .els :: e.flatten
+  | .more b cs => b.flatten ++ .orr :: cs.body
+
+theorem Cases.flatten_eq_body : ∀ (cs : Cases), cs.flatten = cs.body ++ [.fi]
+  | .last b => by simp [Cases.flatten, Cases.body]
+  | .lastElse b e => by simp [Cases.flatten, Cases.body]
+  | .more b cs => by simp [Cases.flatten, Cases.body, Cases.flatten_eq_body cs]
+
+theorem rawDepthAny_body : ∀ (cs : Cases) (k : Nat) (rest : List Tok),
+    rawDepthAny k (cs.body ++ rest) = rawDepthAny k rest
+  | .last b, k, rest => by simp only [Cases.body]; exact rawDepthAny_text b k rest
+  | .lastElse b e, k, rest => by
+    simp only [Cases.body, List.append_assoc, List.cons_append]
+    rw [rawDepthAny_text b]
+    cases k <;> simp only [rawDepthAny] <;> exact rawDepthAny_text e _ rest
+  | .more b cs, k, rest => by
+    simp only [Cases.body, List.append_assoc, List.cons_append]
+    rw [rawDepthAny_text b]
+    cases k <;> simp only [rawDepthAny] <;> exact rawDepthAny_body cs _ rest
+
+theorem rawDepth_flatten0 (t : Text) : rawDepth 0 t.flatten = some 0 := by
+  have := rawDepth_text t 0 []
+  simpa [rawDepth] using this
+
+theorem rawDepthAny_flatten0 (t : Text) : rawDepthAny 0 t.flatten = some 0 := by
+  have := rawDepthAny_text t 0 []
+  simpa [rawDepthAny] using this
+
+theorem rawDepthAny_body0 (cs : Cases) : rawDepthAny 0 cs.body = some 0 := by
+  have := rawDepthAny_body cs 0 []
+  simpa [rawDepthAny] using this
+
+mutual
+theorem delivers_flatten : ∀ (t : Text), Delivers t.flatten t.select
+  | .nil => .nil
+  | .plain p r => .plain p (delivers_flatten r)
+  | .ifThen c a r => by
+    simp only [Text.flatten, Text.select]
+    by_cases hc : c.holds
+    · rw [if_pos hc]; exact .ifTrueFi hc (delivers_flatten a) (delivers_flatten r)
+    · rw [if_neg hc, List.nil_append]; exact .ifFalseFi hc (rawDepth_flatten0 a) (delivers_flatten r)
+  | .ifElse c a b r => by
+    simp only [Text.flatten, Text.select]
+    by_cases hc : c.holds
+    · rw [if_pos hc]
+      exact .ifTrueElse hc (delivers_flatten a) (rawDepthAny_flatten0 b) (delivers_flatten r)
+    · rw [if_neg hc]
+      exact .ifFalseElse hc (rawDepth_flatten0 a) (delivers_flatten b) (delivers_flatten r)
+  | .caseOf n cs r => by
+    simp only [Text.flatten, Text.select]
+    exact .ifcase (caseDelivers_flatten cs n) (delivers_flatten r)
+theorem caseDelivers_flatten : ∀ (cs : Cases) (n : Int), CaseDelivers n cs.flatten (cs.select n)
+  | .last b, n => by
+    simp only [Cases.flatten, Cases.select]
+    by_cases hn : n = 0
+    · rw [if_pos hn]; exact .selFi hn (delivers_flatten b)
+    · rw [if_neg hn]; exact .skipFi hn (rawDepth_flatten0 b)
+  | .lastElse b e, n => by
+    simp only [Cases.flatten, Cases.select]
+    by_cases hn : n = 0
+    · rw [if_pos hn]; exact .selElse hn (delivers_flatten b) (rawDepthAny_flatten0 e)
+    · rw [if_neg hn]; exact .skipElse hn (rawDepth_flatten0 b) (delivers_flatten e)
+  | .more b cs, n => by
+    simp only [Cases.flatten, Cases.select]
+    by_cases hn : n = 0
+    · rw [if_pos hn, Cases.flatten_eq_body cs]
+      exact .selOr hn (delivers_flatten b) (rawDepthAny_body0 cs)
+    · rw [if_neg hn]
+      by_cases hneg : n < 0
+      · rw [if_pos hneg]
+        have ih := caseDelivers_flatten cs n
+        rw [select_neg cs n hneg] at ih
+        refine .skipOr hn (rawDepth_flatten0 b) ?_
+        have e : (if n > 0 then n - 1 else n) = n := if_neg (by omega)
+        rw [e]; exact ih
+      · rw [if_neg hneg]
+        have ih := caseDelivers_flatten cs (n - 1)
+        refine .skipOr hn (rawDepth_flatten0 b) ?_
+        have e : (if n > 0 then n - 1 else n) = n - 1 := if_pos (by omega)
+        rw [e]; exact ih
+end
+
+
 /-! ## `\\expandafter`: the optimized loop is the simple recursion -/
 
 /-- Prepend the buffered tokens to the stream of a successful result. -/
